@@ -243,7 +243,9 @@ class Inliner:
             # moved into the class, read where it is called
             from .pinned_names import METHODS as _PM
             moved = name not in _PM and f.cls is not None and \
-                len(_docless(f.node.body)) > 1 and f.module.relpath.startswith('gym_gridverse/')
+                len(_docless(f.node.body)) > 1 and \
+                f.module.relpath.startswith('gym_gridverse/') and \
+                pure_body_expr(f.node) is None      # (an expression is read as one)
             if not stores_self and not moved:
                 return None
             if not isinstance(call.func.value, ast.Name) and not moved:
